@@ -1322,3 +1322,122 @@ theorem body_ok (c : Ctx p bs env s w o) (hsh : Shape p bs env.len s o) :
     | _ => simp [frameData] at hfd
 
 end cases
+/-! ## one step -/
+
+section stepping
+variable {p : Prog} {bs : List Nat} {env : Env}
+
+/-- the conclusion of the step theorem -/
+def StepOk (p : Prog) (bs : List Nat) (env : Env) : Outcome → Prop
+  | .fault f => f.structural = false
+  | .stop _ => True
+  | .next s' _ => Inv p bs env s'
+
+theorem instr_unique {pc : Nat} {w w' : Word} {o o' : Op} (h : InstrFacts p bs pc w o)
+    (hf : fetch p pc = .ok w') (ho : Op.ofNat? w'.op = some o') : w = w' ∧ o = o' := by
+  have := h.fetch
+  rw [hf] at this
+  cases this
+  have := h.op
+  rw [ho] at this
+  cases this
+  exact ⟨rfl, rfl⟩
+
+/-- the state reached by entering instruction `pc` forwards -/
+theorem inv_enter (hwf : WF p bs) (s1 : VMState) (pc : Nat) (hpc : pc ∈ bs)
+    (h0 : 0 ≤ s1.textpos) (hn : s1.textpos ≤ env.len)
+    (hsh : Frames p bs env.len s1.track ∨
+      (s1.track = [] ∧ ∃ wt, fetch p pc = .ok wt ∧ Op.ofNat? wt.op = some .stop)) :
+    ∃ w, fetch p pc = .ok w ∧ Inv p bs env { s1 with codepos := pc, oper := w } := by
+  obtain ⟨w, o, hf⟩ := hwf.instr pc hpc
+  refine ⟨w, hf.fetch, w, o, ⟨hwf, hf, hpc, rfl, rfl, rfl, h0, hn⟩, ?_⟩
+  unfold Shape
+  simp only [hf.noback, hf.noback2]
+  rcases hsh with h | ⟨h1, wt, h2, h3⟩
+  · exact Or.inl h
+  · exact Or.inr ⟨h1, Or.inr (instr_unique hf h2 h3).2⟩
+
+theorem finish_ok (hwf : WF p bs) {s : VMState} {w : Word} {o : Op} (c : Ctx p bs env s w o)
+    (hns : o ≠ .stop) (s1 : VMState) (e : Exit) (hb : BodyOk p bs env s o (.ok (s1, e))) :
+    StepOk p bs env (finish p (s1, e)) := by
+  obtain ⟨hcp, hop, h0, hn, hmid⟩ := hb
+  cases e with
+  | halt => exact trivial
+  | advance i =>
+    obtain ⟨hfr, hsz⟩ : Frames p bs env.len s1.track ∧ i + 1 = o.size := hmid
+    have hnext : s1.codepos + i + 1 ∈ bs := by
+      rcases c.facts.next with h | h
+      · exact absurd h hns
+      · rw [hcp]; have : s.codepos + i + 1 = s.codepos + o.size := by omega
+        rw [this]; exact h
+    obtain ⟨w', hf', hinv⟩ := inv_enter (env := env) hwf s1 _ hnext h0 hn (Or.inl hfr)
+    simp only [finish, doAdvance, hf']
+    exact hinv
+  | goto t =>
+    obtain ⟨hbd, hsh⟩ : isBoundaryPos bs t = true ∧ _ := hmid
+    simp only [isBoundaryPos, Bool.and_eq_true, decide_eq_true_eq, List.contains_iff_mem] at hbd
+    obtain ⟨w', hf', hinv⟩ := inv_enter (env := env) hwf s1 t.toNat hbd.2 h0 hn hsh
+    have : ¬ t < 0 := by omega
+    simp only [finish, doGoto, this, ite_false, hf']
+    exact hinv
+  | back =>
+    have hfr : Frames p bs env.len s1.track := hmid
+    cases htr : s1.track with
+    | nil => rw [htr] at hfr; exact absurd rfl (frames_ne_nil hfr)
+    | cons cc tl =>
+      rw [htr] at hfr
+      cases hfr with
+      | root tp ht0 htn =>
+        obtain ⟨w0, o0, hf0⟩ := hwf.instr 0 hwf.zero
+        obtain ⟨wr, hwr, hor⟩ := hwf.root
+        obtain ⟨rfl, rfl⟩ := instr_unique hf0 hwr hor
+        have hsp : savedPos 0 = (0, false) := by decide
+        simp only [finish, doBacktrack, htr, hsp, hf0.fetch]
+        refine ⟨w0, .lazybranch, ⟨hwf, hf0, hwf.zero, rfl, rfl, rfl, h0, hn⟩, ?_⟩
+        unfold Shape
+        simp only [hf0.noback2, Bool.false_eq_true, ite_false]
+        exact ⟨[tp], [], rfl, rfl, ⟨ht0, htn⟩, Or.inr ⟨rfl, trivial⟩⟩
+      | cons _ w' o' d rest hin hf ho hd hp hr =>
+        obtain ⟨w2, o2, hf2⟩ := hwf.instr _ hin
+        obtain ⟨rfl, rfl⟩ := instr_unique hf2 hf ho
+        simp only [finish, doBacktrack, htr, hf]
+        cases hb2 : (savedPos cc).2 with
+        | true =>
+          simp only [ite_true]
+          refine ⟨w2, o2, ⟨hwf, hf2, hin, rfl, rfl, rfl, h0, hn⟩, ?_⟩
+          unfold Shape
+          simp only [hf2.noback]
+          rw [hb2] at hd hp
+          exact ⟨d, rest, rfl, hd, hp, hr⟩
+        | false =>
+          simp only [Bool.false_eq_true, ite_false]
+          refine ⟨w2, o2, ⟨hwf, hf2, hin, rfl, rfl, rfl, h0, hn⟩, ?_⟩
+          unfold Shape
+          simp only [hf2.noback2]
+          rw [hb2] at hd hp
+          exact ⟨d, rest, rfl, hd, hp, Or.inl hr⟩
+
+/-- **One iteration of the interpreter loop keeps the invariant and raises no structural fault.** -/
+theorem step_ok (hwf : WF p bs) {s : VMState} (hinv : Inv p bs env s) : StepOk p bs env (step p env s) := by
+  obtain ⟨w, o, c, hsh⟩ := hinv
+  have hb := body_ok c hsh
+  by_cases hstop : o = .stop
+  · -- at `Stop`: forwards it halts; it has no Back / Back2 case and no frame refers to it
+    subst hstop
+    have hop : Op.ofNat? s.oper.op = some .stop := by rw [c.oop]; exact c.facts.op
+    unfold Shape at hsh
+    cases hbk : s.oper.back <;> cases hbk2 : s.oper.back2 <;> simp only [hbk, hbk2] at hsh
+    · simp only [step, body, hop, modeOf, hbk, hbk2, finish]; exact trivial
+    · obtain ⟨d, rest, _, hfd, _⟩ := hsh; simp [frameData] at hfd
+    · obtain ⟨d, rest, _, hfd, _⟩ := hsh; simp [frameData] at hfd
+  · unfold step
+    cases hbody : body p env s with
+    | error f => rw [hbody] at hb; exact hb
+    | ok r =>
+      obtain ⟨s1, e⟩ := r
+      rw [hbody] at hb
+      exact finish_ok hwf c hstop s1 e hb
+
+end stepping
+
+end RegexVerif.Lemmas.VM
